@@ -27,6 +27,12 @@
 //!         task samples pending_stats the whole time. Only schedule-independent observables are reported (sorted log).
 //! mode 6: one join_all over all tasks polled by hand (root polled only after its waker fired); with more than 30
 //!         children this is JoinAll::Big = FuturesUnordered (per-child wakers). Sorted log, schedule-independent fields.
+//! mode 7: THROUGH THE PROCESSOR: a synthetic x86 minidump with one thread per task; the thread's frames (a frame-pointer
+//!         chain) lie in the modules of the task's lookups, in order; `minidump_processor::process_minidump` walks all
+//!         threads (its own join_all) through `&Symbolizer` as the SymbolProvider (minidump-unwind's glue). schedule =
+//!         [exec, n]: exec 0 one process future polled by hand (root polled only when woken); 1 n concurrent process
+//!         futures of the same dump on ONE symbolizer in a hand-polled join_all; 2 the same, spawned on a multi-threaded
+//!         tokio runtime. Keys need a code file, debug file and debug id. results = per thread `key~class` per frame.
 //! lookup kind (modes 0,1,3,4,5,6): 0 fill_symbol, 1 walk_frame, 2 get_symbol_at_address (only valid for keys with
 //!         cf=0, ci=0, df>0, di>0; otherwise treated as 0), 3 get_file_path (forwarded to the supplier, must not touch
 //!         slots or counters) followed by fill_symbol.
@@ -50,6 +56,10 @@ use std::sync::atomic::{AtomicBool, AtomicUsize, Ordering};
 use std::sync::{Arc, Mutex};
 use std::task::{Context, Poll, Wake, Waker};
 use vharness::*;
+
+#[path = "../dumpspec.rs"]
+#[allow(dead_code)]
+mod dumpspec;
 
 const CODE_FILES: [Option<&str>; 7] = [
     None,
@@ -123,7 +133,8 @@ impl Drop for InSup {
 
 fn sym_text(id: usize) -> String {
     format!(
-        "MODULE Linux x86_64 000000000000000000000000000000000 mock\nFUNC 1000 10 0 sym_k{}\nSTACK CFI INIT 1000 10 .cfa: {} .ra: 7\n",
+        "MODULE Linux x86_64 000000000000000000000000000000000 mock\nFUNC 1000 10 0 sym_k{}\nFUNC 2000 10 0 sym_k{}\nSTACK CFI INIT 1000 10 .cfa: {} .ra: 7\n",
+        id,
         id,
         100 + id
     )
@@ -587,6 +598,17 @@ fn fmt_stats(symbolizer: &Symbolizer) -> String {
     }
 }
 
+/// Once a run on a real runtime has been reported LOST in this process the failing input exists; later runs wait only
+/// briefly, so that a tree that loses wake-ups does not cost the full timeout for every remaining case.
+static LOST_SEEN: AtomicBool = AtomicBool::new(false);
+fn runtime_timeout() -> std::time::Duration {
+    if LOST_SEEN.load(Ordering::SeqCst) {
+        std::time::Duration::from_millis(300)
+    } else {
+        std::time::Duration::from_secs(12)
+    }
+}
+
 /// mode 5: the real Symbolizer shared by tasks on a multi-threaded tokio runtime
 fn run_threaded(
     symbolizer: Symbolizer,
@@ -662,9 +684,12 @@ fn run_threaded(
                 }
             }
         };
-        let st = match tokio::time::timeout(std::time::Duration::from_secs(10), all).await {
+        let st = match tokio::time::timeout(runtime_timeout(), all).await {
             Ok(()) => "OK",
-            Err(_) => "LOST",
+            Err(_) => {
+                LOST_SEEN.store(true, Ordering::SeqCst);
+                "LOST"
+            }
         };
         done.store(true, Ordering::SeqCst);
         let _ = observer.await;
@@ -686,6 +711,173 @@ fn run_threaded(
     )
 }
 
+/// mode 7: the real processor over a synthetic dump, one Symbolizer shared by all threads (and all processes)
+fn run_processor(tasks: &[Vec<(usize, u8)>], idents: &[(usize, usize, usize, usize)], scripts: Vec<(u32, u8)>, sched: &[usize]) -> String {
+    use dumpspec::{build_dump, ModSpec, Spec, ThreadSpec};
+    let exec = sched.first().copied().unwrap_or(0);
+    let nproc = if exec == 0 { 1 } else { sched.get(1).copied().unwrap_or(2).clamp(1, 4) };
+    let base_of = |k: usize| 0x1000_0000u64 + (k as u64) * 0x10_0000;
+    let mut spec = Spec { cpu: "x86".into(), os: "win".into(), ..Default::default() };
+    for (i, &(cf, ci, df, di)) in idents.iter().enumerate() {
+        spec.modules.push(ModSpec {
+            base: base_of(i),
+            size: 0x10000,
+            name: CODE_FILES[cf].unwrap_or("anon").to_string(),
+            sym: None,
+            debug: if df > 0 && di > 0 { Some((DEBUG_FILES[df].unwrap().to_string(), (di * 16 + ci) as u32)) } else { None },
+        });
+    }
+    for (t, lk) in tasks.iter().enumerate() {
+        let stack_base = 0x7000_0000u64 + (t as u64) * 0x1000;
+        let mut stack = vec![];
+        for j in 0..lk.len() {
+            let (next_ebp, next_ret) = if j + 1 < lk.len() {
+                (stack_base + 8 * (j as u64 + 1), base_of(lk[j + 1].0) + 0x2004)
+            } else {
+                (0, 0)
+            };
+            stack.extend_from_slice(&(next_ebp as u32).to_le_bytes());
+            stack.extend_from_slice(&(next_ret as u32).to_le_bytes());
+        }
+        let eip = lk.first().map(|&(k, _)| base_of(k) + 0x2004).unwrap_or(0);
+        spec.threads.push(ThreadSpec {
+            id: 100 + t as u32,
+            stack_base,
+            stack,
+            regs: Some(vec![("eip".to_string(), eip), ("esp".to_string(), stack_base), ("ebp".to_string(), stack_base)]),
+        });
+    }
+    let bytes = build_dump(&spec);
+    let dump = Arc::new(minidump::Minidump::read(bytes).expect("synthetic dump"));
+    let ml = dump.get_stream::<minidump::MinidumpModuleList>().expect("module list");
+    let mut keys: Vec<KeyTuple> = vec![KeyTuple::default(); idents.len()];
+    for m in ml.iter() {
+        let k = ((m.base_address() - 0x1000_0000) / 0x10_0000) as usize;
+        keys[k] = key_tuple(m);
+    }
+    for i in 0..keys.len() {
+        for j in 0..i {
+            assert!(keys[i] != keys[j], "mode 7 needs pairwise distinct module identities");
+        }
+    }
+    let log = Arc::new(Mutex::new(Vec::<String>::new()));
+    let sym = Arc::new(Symbolizer::new(Mock {
+        keys,
+        scripts,
+        log: log.clone(),
+        current: Arc::new(AtomicUsize::new(usize::MAX)),
+        in_sup: Arc::new(Mutex::new(vec![])),
+        threaded: exec == 2,
+        file_calls: Arc::new(AtomicUsize::new(0)),
+    }));
+    let render = |st: &minidump_processor::ProcessState| -> String {
+        st.threads
+            .iter()
+            .map(|cs| {
+                let row: Vec<String> = cs
+                    .frames
+                    .iter()
+                    .map(|f| {
+                        let k = match &f.module {
+                            Some(m) => (((m.base_address() - 0x1000_0000) / 0x10_0000) as usize).to_string(),
+                            None => "?".to_string(),
+                        };
+                        let class = match f.function_name.as_deref().and_then(|n| n.strip_prefix("sym_k")) {
+                            Some(id) => format!("S{}", id),
+                            None => "E".to_string(),
+                        };
+                        format!("{}~{}", k, class)
+                    })
+                    .collect();
+                if row.is_empty() { "-".to_string() } else { row.join(".") }
+            })
+            .collect::<Vec<_>>()
+            .join("|")
+    };
+    let mut status = "OK";
+    let mut obs = "-".to_string();
+    let mut rows: Vec<String> = vec![];
+    if exec == 2 {
+        let rt = tokio::runtime::Builder::new_multi_thread()
+            .worker_threads(sched.get(2).copied().unwrap_or(4).clamp(2, 8))
+            .enable_all()
+            .build()
+            .expect("runtime");
+        let res = rt.block_on(async {
+            let hs: Vec<_> = (0..nproc)
+                .map(|_| {
+                    let (d, s) = (dump.clone(), sym.clone());
+                    tokio::spawn(async move { minidump_processor::process_minidump(&*d, &*s).await.map(|st| st.threads.len()).ok(); })
+                })
+                .collect();
+            tokio::time::timeout(runtime_timeout(), futures_util::future::join_all(hs)).await
+        });
+        rt.shutdown_background();
+        match res {
+            Err(_) => {
+                LOST_SEEN.store(true, Ordering::SeqCst);
+                status = "LOST"
+            }
+            Ok(v) => {
+                for r in v {
+                    r.expect("process task panicked");
+                }
+            }
+        }
+        // the frames are rendered by one more (sequential) pass over the now fully cached symbolizer
+        let st = futures_util::FutureExt::now_or_never(minidump_processor::process_minidump(&*dump, &*sym));
+        match st {
+            Some(Ok(st)) => rows.push(render(&st)),
+            Some(Err(e)) => obs = format!("process_minidump failed: {:?}", e),
+            None => obs = "a lookup suspended although every module had been located".to_string(),
+        }
+    } else {
+        let root_flag = Arc::new(Flag(AtomicBool::new(true)));
+        let root_waker = Waker::from(root_flag.clone());
+        let futs: Vec<_> = (0..nproc).map(|_| minidump_processor::process_minidump(&*dump, &*sym)).collect();
+        let mut root = Box::pin(futures_util::future::join_all(futs));
+        let mut polls = 0usize;
+        loop {
+            if !root_flag.0.load(Ordering::SeqCst) {
+                status = "LOST";
+                break;
+            }
+            if polls >= 100_000 {
+                status = "HUNG";
+                break;
+            }
+            root_flag.0.store(false, Ordering::SeqCst);
+            polls += 1;
+            let mut cx = Context::from_waker(&root_waker);
+            if let Poll::Ready(v) = root.as_mut().poll(&mut cx) {
+                for r in v {
+                    match r {
+                        Ok(st) => rows.push(render(&st)),
+                        Err(e) => obs = format!("process_minidump failed: {:?}", e),
+                    }
+                }
+                break;
+            }
+        }
+    }
+    if rows.windows(2).any(|w| w[0] != w[1]) {
+        obs = "two concurrent processings of the same dump on one symbolizer produced different frames".to_string();
+    }
+    log.lock().unwrap().sort_by_key(|e| e.parse::<usize>().unwrap_or(usize::MAX));
+    let dash = |s: String| if s.is_empty() { "-".to_string() } else { s };
+    let p = sym.pending_stats();
+    format!(
+        "{};{};-;{};{}/{};{};0;{}",
+        status,
+        dash(log.lock().unwrap().join(".")),
+        rows.first().cloned().unwrap_or_else(|| "-".to_string()),
+        p.symbols_requested,
+        p.symbols_processed,
+        fmt_stats(&sym),
+        obs
+    )
+}
+
 fn run(line: &str) -> String {
     let mut t = Toks::new(line);
     let mode = t.u64();
@@ -701,11 +893,13 @@ fn run(line: &str) -> String {
     let mut keys: Vec<KeyTuple> = vec![];
     let mut scripts: Vec<(u32, u8)> = vec![];
     let mut cfs: Vec<usize> = vec![];
+    let mut idents: Vec<(usize, usize, usize, usize)> = vec![];
     for _ in 0..nk {
         let susp = t.u64() as u32;
         let outc = t.u64() as u8;
         let (cf, ci, df, di) = (t.usize(), t.usize(), t.usize(), t.usize());
         cfs.push(cf);
+        idents.push((cf, ci, df, di));
         let m = SimpleModule {
             code_file: CODE_FILES[cf].map(String::from),
             code_identifier: CODE_IDS[ci].map(|s| CodeId::new(s.to_string())),
@@ -721,6 +915,9 @@ fn run(line: &str) -> String {
     let sched: Vec<usize> = (0..ns).map(|_| t.usize()).collect();
     if mode == 2 {
         return run_files(&tasks, &mods, &scripts, &sched);
+    }
+    if mode == 7 {
+        return run_processor(&tasks, &idents, scripts, &sched);
     }
 
     let log = Arc::new(Mutex::new(Vec::<String>::new()));
